@@ -28,6 +28,16 @@
 //!
 //! Also `srvcfg <op>+<op>…`: `Server::builder().tls_config(..)` alone (`ok|err:<class>|panic`).
 //!
+//! `tlsf <feat> <store> <rest of a tls case>`: the same scenario in a build of tonic that has root-store
+//! features compiled in — which this harness (tls-ring only) has not.  `<feat>` = `n` (tls-ring +
+//! tls-native-roots) or `nw` (+ tls-webpki-roots, with a `webpki-roots` crate whose only anchor is the
+//! test CA `ca2`); `<store>` = what the "platform" store holds for this case (`SSL_CERT_FILE`, which
+//! rustls-native-certs honours): `ca1|ca2|ca1+ca2|empty|junk|missing`.  Extra client ops there:
+//! `nroots` (with_native_roots), `wroots` (with_webpki_roots, `nw` only).  This file is compiled a
+//! second and third time into the side crates `../harness_c15n`, `../harness_c15nw` (which call
+//! `install_side`); the main harness forwards `tlsf` cases to those binaries over a pipe (one
+//! process per side crate per run, one case line in, one observed line out).
+//!
 //! observed line (one group per client, joined by ` | `):
 //!   `res=<ok|fail:CLASS> cfg=<ok|err:…> h=<handler runs> peer=<…> ext=<…> plain=<0|1> dial=<0|1>`
 use crate::common::*;
@@ -108,6 +118,50 @@ fn host_of(tok: &str) -> Option<&'static str> {
 #[derive(Default)]
 struct TapLog {
     written: Vec<u8>,
+    /// offset in `written` at which the most recent connection starts
+    conn_start: usize,
+    /// recording proxy only (`-native`): connections accepted / whose client side has been read to its end
+    accepted: usize,
+    closed: usize,
+}
+
+/// The client's view of the wire for failure classification: the tap log and whether it is filled
+/// in by the recording proxy (asynchronously) or by the tapped IO itself (synchronously).
+#[derive(Clone)]
+struct Wire {
+    log: Arc<Mutex<TapLog>>,
+    native: bool,
+}
+
+impl Wire {
+    fn now(&self) -> WirePos {
+        let l = self.log.lock().unwrap();
+        wire_pos(&l.written[l.conn_start.min(l.written.len())..])
+    }
+    /// Position on the most recent connection once everything the client wrote is in the log.
+    /// The tapped IO logs a write before the client can go on; the proxy logs it when its own task
+    /// gets to read it, so there we wait until it has read that connection to its end (a client
+    /// whose connect failed has dropped the socket) — or the answer can no longer change.
+    async fn settled(&self) -> WirePos {
+        if !self.native {
+            return self.now();
+        }
+        for _ in 0..3000 {
+            let p = self.now();
+            if p == WirePos::Finished {
+                return p;
+            }
+            {
+                let l = self.log.lock().unwrap();
+                if l.accepted > 0 && l.closed >= l.accepted {
+                    drop(l);
+                    return self.now();
+                }
+            }
+            tokio::time::sleep(Duration::from_millis(1)).await;
+        }
+        self.now()
+    }
 }
 
 struct Tap<IO> {
@@ -327,13 +381,139 @@ fn parse(case: &str) -> Option<Case> {
 /// Applies the builder calls in order; returns the config (None = `notls`) and the identity the
 /// client ends up presenting as far as the *harness* can tell syntactically (last `id:` op; the
 /// model decides what survives `roots`).
-fn anchor(name: &str) -> Option<rustls::pki_types::TrustAnchor<'static>> {
+pub fn anchor(name: &str) -> Option<rustls::pki_types::TrustAnchor<'static>> {
     // RootCertStore::add does the webpki conversion; `roots` is its public field
     let mut st = rustls::RootCertStore::empty();
     for d in ders(cert_pem(name)?) {
         st.add(CertificateDer::from(d)).ok()?;
     }
     st.roots.into_iter().next()
+}
+
+// ------------------------------------------------------------------------------------------
+// builds of tonic with root-store features: the side crates
+
+/// What a side crate tells this module about the build it is: its feature tag and the
+/// `ClientTlsConfig` methods that exist only there.
+#[allow(dead_code)]
+pub struct SideBuild {
+    pub feat: &'static str,
+    pub ext_op: fn(ClientTlsConfig, &str) -> Option<ClientTlsConfig>,
+}
+
+static SIDE: std::sync::OnceLock<(SideBuild, std::path::PathBuf)> = std::sync::OnceLock::new();
+
+const STORES: [(&str, &[&str]); 5] =
+    [("ca1", &["ca1"]), ("ca2", &["ca2"]), ("ca1+ca2", &["ca1", "ca2"]), ("empty", &[]), ("junk", &["junk"])];
+
+/// Called once by a side crate's `main`: writes the "platform certificate store" variants into a
+/// private directory and makes sure nothing else feeds rustls-native-certs.
+#[allow(dead_code)]
+pub fn install_side(b: SideBuild) -> io::Result<()> {
+    let dir = std::env::temp_dir().join(format!("verif-c15{}-{}", b.feat, std::process::id()));
+    std::fs::create_dir_all(&dir)?;
+    for (name, certs) in STORES {
+        let body: String = certs.iter().map(|c| cert_pem(c).unwrap_or("")).collect();
+        std::fs::write(dir.join(format!("{}.pem", name)), body)?;
+    }
+    std::env::remove_var("SSL_CERT_DIR");
+    let _ = SIDE.set((b, dir));
+    Ok(())
+}
+
+#[allow(dead_code)]
+pub fn uninstall_side() {
+    if let Some((_, dir)) = SIDE.get() {
+        let _ = std::fs::remove_dir_all(dir);
+    }
+}
+
+/// `tlsf <feat> <store> <rest>` inside the side binary: point the platform store at `<store>` and
+/// run `<rest>` as a `tls` case.
+fn execute_side_local(b: &SideBuild, dir: &std::path::Path, feat: &str, store: &str, rest: &str) -> String {
+    if feat != b.feat {
+        return "bad-case".into();
+    }
+    let file = match store {
+        "missing" => dir.join("no-such-file.pem"),
+        s if STORES.iter().any(|(n, _)| *n == s) => dir.join(format!("{}.pem", s)),
+        _ => return "bad-case".into(),
+    };
+    // one case at a time in this process (the caller is the stdin loop)
+    std::env::set_var("SSL_CERT_FILE", &file);
+    execute(&format!("tls {}", rest))
+}
+
+struct SideProc {
+    _child: std::process::Child,
+    stdin: std::process::ChildStdin,
+    stdout: std::io::BufReader<std::process::ChildStdout>,
+}
+
+fn side_binary(feat: &str) -> Option<std::path::PathBuf> {
+    let rel = format!("harness_c15{0}/target/debug/c15{0}", feat);
+    let mut roots: Vec<std::path::PathBuf> = Vec::new();
+    if let Ok(exe) = std::env::current_exe() {
+        // <root>/harness/target/debug/harness
+        if let Some(r) = exe.ancestors().nth(4) {
+            roots.push(r.to_path_buf());
+        }
+    }
+    roots.push(std::path::Path::new(env!("CARGO_MANIFEST_DIR")).join(".."));
+    roots.into_iter().map(|r| r.join(&rel)).find(|p| p.is_file())
+}
+
+fn spawn_side(feat: &str) -> Option<SideProc> {
+    use std::process::{Command, Stdio};
+    let mut child = Command::new(side_binary(feat)?)
+        .stdin(Stdio::piped())
+        .stdout(Stdio::piped())
+        .stderr(Stdio::null())
+        .spawn()
+        .ok()?;
+    let stdin = child.stdin.take()?;
+    let stdout = std::io::BufReader::new(child.stdout.take()?);
+    Some(SideProc { _child: child, stdin, stdout })
+}
+
+/// Forward one `tlsf` case to the side binary of its feature set: one long-lived process per
+/// binary, started on first use; a case line in, an observed line out.
+fn execute_side_remote(feat: &str, case: &str) -> String {
+    use std::io::{BufRead, Write};
+    static PROCS: Mutex<[Option<SideProc>; 2]> = Mutex::new([None, None]);
+    let slot = match feat {
+        "n" => 0,
+        "nw" => 1,
+        _ => return "bad-case".into(),
+    };
+    let mut procs = PROCS.lock().unwrap_or_else(|e| e.into_inner());
+    for _attempt in 0..2 {
+        if procs[slot].is_none() {
+            procs[slot] = spawn_side(feat);
+        }
+        let Some(p) = procs[slot].as_mut() else { return "side-binary-missing".into() };
+        let mut line = String::new();
+        let ok = writeln!(p.stdin, "{}", case).is_ok()
+            && p.stdin.flush().is_ok()
+            && matches!(p.stdout.read_line(&mut line), Ok(n) if n > 0);
+        if ok {
+            return line.trim_end().to_string();
+        }
+        // the process died (a crash is not a `panic` of the case: those are caught over there)
+        procs[slot] = None;
+    }
+    "side-process-died".into()
+}
+
+fn execute_tlsf(case: &str) -> String {
+    let mut it = case.splitn(4, ' ');
+    let (Some("tlsf"), Some(feat), Some(store), Some(rest)) = (it.next(), it.next(), it.next(), it.next()) else {
+        return "bad-case".into();
+    };
+    match SIDE.get() {
+        Some((b, dir)) => execute_side_local(b, dir, feat, store, rest),
+        None => execute_side_remote(feat, case),
+    }
 }
 
 fn build_client_cfg(ops: &[String]) -> Option<Option<ClientTlsConfig>> {
@@ -366,6 +546,9 @@ fn build_client_cfg(ops: &[String]) -> Option<Option<ClientTlsConfig>> {
             cfg = cfg.assume_http2(b == "1");
         } else if op == "roots" {
             cfg = cfg.with_enabled_roots();
+        } else if let Some((b, _)) = SIDE.get() {
+            // methods that exist only with the root-store features compiled in
+            cfg = (b.ext_op)(cfg, op)?;
         } else {
             return None;
         }
@@ -420,38 +603,127 @@ fn rustls_server_config(c: &Case) -> Result<rustls::ServerConfig, String> {
     Ok(cfg)
 }
 
-fn classify_err(e: &(dyn std::error::Error + 'static)) -> String {
-    // walk the source chain, looking inside io::Error payloads as well
-    let mut texts = Vec::new();
-    let mut cur: Option<&(dyn std::error::Error + 'static)> = Some(e);
-    let mut depth = 0;
-    while let Some(err) = cur {
-        depth += 1;
-        if depth > 16 {
-            break;
+/// How far the client got on the wire, read off the bytes it wrote (TLS record layer, RFC 8446
+/// §5.1: `type(1) version(2) length(2) fragment`). In a TLS 1.3 handshake the client writes its
+/// ClientHello in the clear (type 22), possibly a dummy ChangeCipherSpec (type 20), and after it
+/// has judged the server's certificate either an encrypted alert (2 + 1 + 16 = 19 bytes) or its
+/// Finished flight (at least 4 + 32 + 1 + 16 = 53 bytes), both with outer type 23.
+#[derive(Clone, Copy, PartialEq, Eq, Debug)]
+enum WirePos {
+    /// nothing that looks like TLS was written
+    NoTls,
+    /// a ClientHello went out, the client's Finished did not
+    Hello,
+    /// the client's side of the handshake completed (its Finished flight went out)
+    Finished,
+}
+
+fn wire_pos(written: &[u8]) -> WirePos {
+    let mut pos = WirePos::NoTls;
+    let mut i = 0;
+    while i + 5 <= written.len() {
+        let (ty, major) = (written[i], written[i + 1]);
+        let len = u16::from_be_bytes([written[i + 3], written[i + 4]]) as usize;
+        if !(20..=23).contains(&ty) || major != 3 {
+            break; // not a TLS record stream (plaintext HTTP/2, …)
         }
-        texts.push(err.to_string());
-        if let Some(r) = err.downcast_ref::<rustls::Error>() {
-            return classify_rustls(r);
+        if ty == 22 && pos == WirePos::NoTls {
+            pos = WirePos::Hello;
         }
-        if let Some(ioe) = err.downcast_ref::<io::Error>() {
+        if ty == 23 && len >= 53 && pos != WirePos::NoTls {
+            pos = WirePos::Finished;
+        }
+        i += 5 + len;
+    }
+    pos
+}
+
+/// Is `err` one of the error types a caller can name?  tonic's own `TlsError` and
+/// `HttpsUriWithoutTlsSupport` are `pub(crate)`: they can be recognised only as "none of these".
+fn nameable(err: &(dyn std::error::Error + 'static)) -> bool {
+    err.is::<io::Error>()
+        || err.is::<rustls::Error>()
+        || err.is::<rustls::pki_types::InvalidDnsNameError>()
+        || err.is::<rustls::server::VerifierBuilderError>()
+        || err.is::<tonic::transport::Error>()
+        || err.is::<tonic::ConnectError>()
+        || err.is::<tonic::TimeoutExpired>()
+        || err.is::<tonic::Status>()
+        || err.is::<hyper::Error>()
+        || err.is::<h2::Error>()
+        || err.is::<hyper_util::client::legacy::Error>()
+        || err.is::<tokio::time::error::Elapsed>()
+        || err.is::<http::Error>()
+        || err.is::<http::uri::InvalidUri>()
+}
+
+/// The innermost error of a source chain (looking inside `io::Error` payloads as well), and the
+/// first `rustls::Error` met on the way.
+fn chain_leaf<'a>(e: &'a (dyn std::error::Error + 'static)) -> (&'a (dyn std::error::Error + 'static), Option<&'a rustls::Error>) {
+    let mut cur = e;
+    for _ in 0..16 {
+        if let Some(r) = cur.downcast_ref::<rustls::Error>() {
+            return (cur, Some(r));
+        }
+        if let Some(ioe) = cur.downcast_ref::<io::Error>() {
             if let Some(inner) = ioe.get_ref() {
-                if let Some(r) = inner.downcast_ref::<rustls::Error>() {
-                    return classify_rustls(r);
-                }
-                cur = Some(inner);
+                cur = inner;
                 continue;
+            }
+        }
+        match cur.source() {
+            Some(s) => cur = s,
+            None => break,
+        }
+    }
+    (cur, None)
+}
+
+/// Failure class of a connect / call error, by STRUCTURE — never by message text (rewording a
+/// `Display` impl is not a behaviour change): a `rustls::Error` in the source chain is classified
+/// by its variant; an error whose innermost cause is one of tonic's private types by the position
+/// in the handshake at which it was raised (what the client had written on that connection by
+/// then): nothing TLS on the wire ⇒ the connector refused an https URI for want of a TLS
+/// configuration; the client's Finished on the wire ⇒ tonic's own check after a completed
+/// handshake (ALPN).  Two steps, because the error itself must not be held across an await.
+enum PreClass {
+    Done(String),
+    /// innermost cause is a tonic-private error type: the position on the wire decides
+    Private,
+}
+
+fn pre_classify(e: &(dyn std::error::Error + 'static)) -> PreClass {
+    let (_, tls) = chain_leaf(e);
+    if let Some(r) = tls {
+        return PreClass::Done(classify_rustls(r));
+    }
+    // tonic's `Connector::call` wraps whatever stopped it in the public `ConnectError`; what it
+    // wraps directly is either the dial / handshake error (io::Error, …) or one of tonic's own
+    // private error values (`TlsError::H2NotNegotiated`, `HttpsUriWithoutTlsSupport`)
+    let mut cur: Option<&(dyn std::error::Error + 'static)> = Some(e);
+    for _ in 0..16 {
+        let Some(err) = cur else { break };
+        if let Some(ce) = err.downcast_ref::<tonic::ConnectError>() {
+            if !nameable(&*ce.0) {
+                return PreClass::Private;
             }
         }
         cur = err.source();
     }
-    let all = texts.join(" | ");
-    if all.contains("HTTP/2 was not negotiated") {
-        "h2-not-negotiated".into()
-    } else if all.contains("Connecting to HTTPS without TLS enabled") {
-        "https-without-tls".into()
-    } else {
-        format!("other<{}>", all.replace(' ', "_"))
+    if std::env::var("VERIF_C15_DEBUG").is_ok() {
+        return PreClass::Done(format!("other<{:?}>", e).replace(' ', "_"));
+    }
+    PreClass::Done("other<nameable>".into())
+}
+
+async fn finish_class(pre: PreClass, wire: &Wire) -> String {
+    match pre {
+        PreClass::Done(s) => s,
+        PreClass::Private => match wire.settled().await {
+            WirePos::Finished => "h2-not-negotiated".into(),
+            WirePos::NoTls => "https-without-tls".into(),
+            WirePos::Hello => "other<private-error-mid-handshake>".into(),
+        },
     }
 }
 
@@ -558,12 +830,21 @@ async fn start_proxy<IO: Transport>(dial: Dialer<IO>, log: Arc<Mutex<TapLog>>, d
         while let Ok((a, _)) = l.accept().await {
             let _ = a.set_nodelay(true);
             dials.fetch_add(1, Ordering::SeqCst);
+            {
+                let mut l = log.lock().unwrap();
+                l.accepted += 1;
+                l.conn_start = l.written.len();
+            }
             let dial = dial.clone();
             let log = log.clone();
             tokio::spawn(async move {
-                let Ok(b) = dial().await else { return };
+                let Ok(b) = dial().await else {
+                    log.lock().unwrap().closed += 1;
+                    return;
+                };
                 let (mut ar, mut aw) = tokio::io::split(a);
                 let (mut br, mut bw) = tokio::io::split(b);
+                let log2 = log.clone();
                 let up = async move {
                     let mut buf = vec![0u8; 16384];
                     loop {
@@ -582,6 +863,7 @@ async fn start_proxy<IO: Transport>(dial: Dialer<IO>, log: Arc<Mutex<TapLog>>, d
                             }
                         }
                     }
+                    log2.lock().unwrap().closed += 1;
                     let _ = bw.shutdown().await;
                 };
                 let down = async move {
@@ -599,6 +881,7 @@ async fn run_client<IO: Transport>(idx: usize, spec: ClientSpec, dial: Dialer<IO
     let Mode { lazy, twice, native, cto } = mode;
     let bad = |why: &str| ClientOut { cfg_state: "ok".into(), res: format!("fail:{}", why), plain: false, dialed: false };
     let log = Arc::new(Mutex::new(TapLog::default()));
+    let wire = Wire { log: log.clone(), native };
     let dials = Arc::new(AtomicUsize::new(0));
     let Some(host) = host_of(&spec.urihost) else { return bad("bad-case") };
     // `<scheme>+o<scheme2>`: endpoint URI with <scheme>, plus `Endpoint::origin(<scheme2>://…)`
@@ -666,6 +949,10 @@ async fn run_client<IO: Transport>(idx: usize, spec: ClientSpec, dial: Dialer<IO
                     let log = log.clone();
                     let dial = dial.clone();
                     dials.fetch_add(1, Ordering::SeqCst);
+                    {
+                        let mut l = log.lock().unwrap();
+                        l.conn_start = l.written.len();
+                    }
                     async move {
                         let io = dial().await?;
                         Ok::<_, BoxErr>(hyper_util::rt::TokioIo::new(Tap { inner: io, log }))
@@ -680,14 +967,17 @@ async fn run_client<IO: Transport>(idx: usize, spec: ClientSpec, dial: Dialer<IO
                 (true, false) => ep.connect().await,
             };
             let r = match ch {
-                Err(e) => format!("fail:{}", classify_err(&e)),
+                Err(e) => {
+                    let pre = pre_classify(&e);
+                    format!("fail:{}", finish_class(pre, &wire).await)
+                }
                 Ok(ch) => {
                     let mut grpc = tonic::client::Grpc::new(ch);
-                    let first = one_call(&mut grpc, idx).await;
+                    let first = one_call(&mut grpc, idx, &wire).await;
                     if lazy && first != "ok" {
                         // a lazily connected channel dials again for the next call: it must fail
                         // the same way (no fallback on retry)
-                        let second = one_call(&mut grpc, idx).await;
+                        let second = one_call(&mut grpc, idx, &wire).await;
                         if canonical_res(&second) != canonical_res(&first) {
                             format!("fail:retry-differs<{}|{}>", canonical_res(&first), canonical_res(&second))
                         } else {
@@ -707,7 +997,8 @@ async fn run_client<IO: Transport>(idx: usize, spec: ClientSpec, dial: Dialer<IO
     }
     if native && cfg_state == "ok" {
         // the proxy learns about a connection only when its accept task runs; give it a turn
-        for _ in 0..50 {
+        // (every configured client dials, so this ends at once unless the machine is overloaded)
+        for _ in 0..1000 {
             if dials.load(Ordering::SeqCst) > 0 {
                 break;
             }
@@ -886,44 +1177,63 @@ fn canonical_res(res: &str) -> String {
     format!("fail:{}", c)
 }
 
-async fn one_call(grpc: &mut tonic::client::Grpc<tonic::transport::Channel>, idx: usize) -> String {
+async fn one_call(grpc: &mut tonic::client::Grpc<tonic::transport::Channel>, idx: usize, wire: &Wire) -> String {
     match grpc.ready().await {
-        Err(e) => format!("fail:{}", classify_err(&e)),
+        Err(e) => {
+            let pre = pre_classify(&e);
+            format!("fail:{}", finish_class(pre, wire).await)
+        }
         Ok(()) => {
             let path = http::uri::PathAndQuery::from_static("/verif.Tls/Call");
             let codec = tonic::codec::ProstCodec::<String, String>::default();
             match grpc.unary(tonic::Request::new(payload(idx)), path, codec).await {
                 Ok(r) if r.get_ref() == &format!("echo:{}", payload(idx)) => "ok".into(),
                 Ok(_) => "fail:wrong-reply".into(),
-                Err(st) => format!("fail:{}", classify_status(&st)),
+                Err(st) => format!("fail:{}", classify_status(&st, wire).await),
             }
         }
     }
 }
 
+/// Class of a configuration error (`Endpoint::tls_config`, `Server::tls_config`), by structure:
+/// the public error types by downcast; tonic's private `TlsError` — which a caller cannot name —
+/// by the variant identifier its derived `Debug` prints.  `Display` texts are never looked at.
 fn classify_cfg_err(e: &(dyn std::error::Error + 'static)) -> String {
-    let mut texts = vec![e.to_string()];
-    let mut cur = e.source();
-    while let Some(s) = cur {
-        texts.push(s.to_string());
-        cur = s.source();
+    let (leaf, tls) = chain_leaf(e);
+    if tls.is_some() {
+        // rustls refused the certificate / key pair (`with_client_auth_cert`, `with_single_cert`)
+        return "identity-rejected".into();
     }
-    let all = texts.join(" | ");
-    if all.contains("invalid dns name") || all.contains("InvalidDnsName") {
-        "invalid-dns-name".into()
-    } else if all.contains("Error parsing TLS certificate") {
-        "cert-parse".into()
-    } else if all.contains("Error parsing TLS private key") {
-        "key-parse".into()
-    } else {
-        format!("other<{}>", all.replace(' ', "_"))
+    if leaf.is::<rustls::pki_types::InvalidDnsNameError>() {
+        return "invalid-dns-name".into();
     }
+    if let Some(v) = leaf.downcast_ref::<rustls::server::VerifierBuilderError>() {
+        return match v {
+            rustls::server::VerifierBuilderError::NoRootAnchors => "no-root-anchors".into(),
+            _ => "verifier-builder".into(),
+        };
+    }
+    if !nameable(leaf) {
+        let variant = format!("{:?}", leaf);
+        return match variant.as_str() {
+            "CertificateParseError" => "cert-parse".into(),
+            "PrivateKeyParseError" => "key-parse".into(),
+            "NativeCertsNotFound" => "native-certs-not-found".into(),
+            _ => format!("private<{}>", variant.replace(' ', "_")),
+        };
+    }
+    if leaf.downcast_ref::<tonic::transport::Error>().is_some() {
+        // a transport error without a source: Endpoint's own checks (invalid URI, TLS on a UDS endpoint)
+        return "invalid-uri".into();
+    }
+    format!("other<{:?}>", leaf).replace(' ', "_")
 }
 
-fn classify_status(st: &tonic::Status) -> String {
+async fn classify_status(st: &tonic::Status, wire: &Wire) -> String {
     use std::error::Error;
-    if let Some(src) = st.source() {
-        let c = classify_err(src);
+    let pre = st.source().map(pre_classify);
+    if let Some(pre) = pre {
+        let c = finish_class(pre, wire).await;
         if !c.starts_with("other<") {
             return c;
         }
@@ -957,30 +1267,16 @@ fn srvcfg(ops: &str) -> String {
     }
     match Server::builder().tls_config(tls) {
         Ok(_) => "ok".into(),
-        Err(e) => {
-            let mut texts = vec![e.to_string()];
-            let mut cur = std::error::Error::source(&e);
-            while let Some(s) = cur {
-                texts.push(format!("{} / {:?}", s, s));
-                cur = s.source();
-            }
-            let all = texts.join(" | ");
-            if all.contains("Error parsing TLS certificate") {
-                "err:cert-parse".into()
-            } else if all.contains("Error parsing TLS private key") {
-                "err:key-parse".into()
-            } else if all.contains("NoRootAnchors") {
-                "err:no-root-anchors".into()
-            } else {
-                format!("err:other<{}>", all.replace(' ', "_"))
-            }
-        }
+        Err(e) => format!("err:{}", classify_cfg_err(&e)),
     }
 }
 
 pub fn execute(case: &str) -> String {
     if let Some(ops) = case.strip_prefix("srvcfg ") {
         return srvcfg(ops.trim());
+    }
+    if case.starts_with("tlsf ") {
+        return execute_tlsf(case);
     }
     let c = match parse(case) {
         Some(c) => c,
@@ -1093,6 +1389,60 @@ const CORPUS: &[&str] = &[
     "tls https good ca:ca1 id:c1chain ; s1good h2 ca:ca1+opt:1 duplex-x2",
     "tls http good notls | https good ca:ca1 | http good notls ; s1good h2 - tcp",
     "tls https good notls | http good notls | https good ca:ca1 h2:1 ; s1good plain - tcp-par",
+    // builds with root-store features (side crates): the generated-client entry point CAN succeed
+    // there, and only for a chain that validates against the enabled stores, a matching name, and h2
+    "tlsf n ca1 https good auto ; s1good h2 - tcp",
+    "tlsf n ca1 https good auto ; s1good none - tcp",
+    "tlsf n ca1 https good auto ; s1good none - duplex-lazy",
+    "tlsf n ca1 https good auto ; s1good http11 - duplex",
+    "tlsf n ca1 https good auto ; s1good h2last - tcp",
+    "tlsf n ca1 https good auto ; s2good h2 - tcp",
+    "tlsf n ca2 https good auto ; s2good h2 - tcp",
+    "tlsf n ca1 https bad auto ; s1good h2 - tcp",
+    "tlsf n ca1 https other auto ; s1bad h2 - tcp",
+    "tlsf n ca1 https good auto ; s1good plain - tcp",
+    "tlsf n ca1 http good auto ; s1good plain - tcp",
+    "tlsf n ca1 http good auto ; s1good h2 - tcp",
+    // … as generated `connect` functions do it: Endpoint::new(uri)?.connect()
+    "tlsf n ca1 https ip auto ; s1ip h2 - tcp-native",
+    "tlsf n ca1 https ip auto ; s1ip none - tcp-native",
+    "tlsf n ca1 https ip auto ; s1ip none - tcp-native-lazy",
+    "tlsf n ca1 https ip auto ; s1good h2 - tcp-native",
+    "tlsf n ca2 https ip auto ; s1ip h2 - tcp-native-cto",
+    // a generated client has no identity: an mTLS server serves it only if client auth is optional
+    "tlsf n ca1 https good auto ; s1good h2 ca:ca1 tcp",
+    "tlsf n ca1 https good auto ; s1good h2 ca:ca1+opt:1 tcp",
+    // an empty / unreadable platform store is a configuration error, not an empty trust store
+    "tlsf n empty https good auto ; s1good h2 - tcp",
+    "tlsf n junk https good nroots ca:ca1 ; s1good h2 - tcp",
+    "tlsf n missing https good ca:ca1 roots ; s1good h2 - tcp",
+    "tlsf n empty https good ca:ca1 ; s1good h2 - tcp",
+    // the platform store is trusted only if asked for, and then in addition to the configured CAs
+    "tlsf n ca1 https good ca:ca2 ; s1good h2 - tcp",
+    "tlsf n ca1 https good ; s1good h2 - tcp",
+    "tlsf n ca1 https good ca:ca2 nroots ; s1good h2 - tcp",
+    "tlsf n ca1 https good nroots ca:ca2 ; s2good h2 - tcp",
+    "tlsf n ca1+ca2 https good roots ; s2good h2 - duplex",
+    "tlsf n ca1 https good nroots dom:bad ; s1good h2 - tcp",
+    "tlsf n ca1 https bad dom:good roots ; s1good h2 - tcp",
+    "tlsf n ca1 https good roots h2:1 ; s1good none - tcp",
+    "tlsf n ca1 https good h2:1 roots h2:0 ; s1good none - tcp",
+    "tlsf n ca1 https good id:c1 roots ; s1good h2 ca:ca1 tcp",
+    "tlsf n ca1 https good auto | https good nroots id:c1 | https good ca:ca2 | https good notls ; s1good h2 ca:ca1+opt:1 tcp-par",
+    // both stores compiled in: the webpki store of the test world is {ca2}
+    "tlsf nw ca1 https good auto ; s2good h2 - tcp",
+    "tlsf nw ca1 https good auto ; s1good h2 - tcp",
+    "tlsf nw ca1 https good auto ; s2good none - tcp",
+    "tlsf nw ca1 https good ca:ca1 ; s2good h2 - tcp",
+    "tlsf nw ca1 https good ; s2good h2 - tcp",
+    "tlsf nw ca1 https good nroots ; s2good h2 - tcp",
+    "tlsf nw ca1 https good wroots ; s1good h2 - tcp",
+    "tlsf nw ca1 https good wroots ; s2good h2 - tcp",
+    "tlsf nw ca1 https good wroots nroots ; s1good h2 - duplex",
+    "tlsf nw empty https good wroots ; s2good h2 - tcp",
+    "tlsf nw empty https good auto ; s2good h2 - tcp",
+    "tlsf nw ca2 https ip auto ; s1ip h2 - tcp-native",
+    "tlsf nw ca1 https good notls ; s2good h2 - tcp",
     // server configuration alone
     "tls https good ca:ca1 ; s1good h2 ca:junk tcp",
     "tls https good ca:ca1 ; s1good h2 ca:broken duplex",
@@ -1206,6 +1556,118 @@ fn random_ops(rng: &mut Rng, servercert: &str, aim_ok: bool, urihost: &mut &'sta
         }
     }
     ops
+}
+
+/// Cases for the builds of tonic with root-store features (`tlsf <feat> <store> …`, run by the
+/// side binaries): the generated-client entry point and `with_native_roots` / `with_webpki_roots`
+/// / `with_enabled_roots`, against good / wrong-name / untrusted server certificates, with and
+/// without ALPN h2 on the server side.
+fn side_cases(thorough: bool, rng: &mut Rng, out: &mut Vec<String>) {
+    const CLIENTS_N: [&str; 12] = [
+        "auto", "roots", "nroots", "ca:ca2", "", "nroots ca:ca2", "ca:ca1 roots", "roots h2:1", "nroots dom:good",
+        "roots dom:bad", "notls", "nroots h2:1 h2:0",
+    ];
+    const CLIENTS_W: [&str; 6] = ["wroots", "wroots nroots", "wroots ca:ca1", "wroots h2:1", "wroots dom:good", "nroots wroots dom:bad"];
+    const STORE_NAMES: [&str; 6] = ["ca1", "ca2", "ca1+ca2", "empty", "junk", "missing"];
+    const SIDE_ALPNS: [&str; 6] = ["h2", "none", "http11", "h2last", "h2first", "plain"];
+    // stores that hold no certificate: every configuration asking for the platform store fails the same way
+    let broken = |store: &str| matches!(store, "empty" | "junk" | "missing");
+    for feat in ["n", "nw"] {
+        let mut clients: Vec<&str> = CLIENTS_N.to_vec();
+        if feat == "nw" {
+            clients.extend(CLIENTS_W);
+        }
+        // the generated-client slice in full: store x server certificate x URI host x server ALPN
+        // (quick: the transport is drawn; thorough: every transport)
+        for store in STORE_NAMES {
+            for servercert in SERVER_CERTS {
+                for urihost in ["good", "bad", "ip"] {
+                    for alpn in SIDE_ALPNS {
+                        let trs: &[&str] = if urihost == "ip" {
+                            &["tcp", "duplex-lazy", "tcp-native", "tcp-native-lazy", "duplex-native-cto"]
+                        } else {
+                            &["tcp", "duplex", "tcp-lazy", "duplex-lazy"]
+                        };
+                        if thorough {
+                            for tr in trs {
+                                out.push(format!("tlsf {} {} https {} auto ; {} {} - {}", feat, store, urihost, servercert, alpn, tr));
+                            }
+                        } else if !broken(store) || alpn == "h2" {
+                            let tr = *rng.pick(trs);
+                            out.push(format!("tlsf {} {} https {} auto ; {} {} - {}", feat, store, urihost, servercert, alpn, tr));
+                        }
+                    }
+                }
+            }
+        }
+        // a compiled-in store that was NOT asked for is not trusted: a server certified only by it
+        for (clients, servercert) in [
+            (&["", "ca:ca2", "ta:ca2", "ca:ca2 h2:1", "wroots", "cas:ca2+junk dom:good"][..], "s1good"), // platform store {ca1}
+            (&["", "ca:ca1", "ta:ca1", "ca:ca1 h2:1", "nroots", "nroots ca:ca1"][..], "s2good"),         // webpki store {ca2}
+        ] {
+            for client in clients {
+                if feat == "n" && (servercert == "s2good" || client.contains("wroots")) {
+                    continue;
+                }
+                for alpn in ["h2", "none"] {
+                    for tr in ["tcp", "duplex-lazy"] {
+                        out.push(format!("tlsf {} ca1 https good {} ; {} {} - {}", feat, client, servercert, alpn, tr).replace("  ", " "));
+                    }
+                }
+            }
+        }
+        // hand-written configurations around the root-store methods x the same dimensions
+        // (quick: one in six of the product, drawn; thorough: all of it)
+        for client in &clients {
+            for store in STORE_NAMES {
+                for servercert in SERVER_CERTS {
+                    for alpn in ["h2", "none", "h2last", "plain"] {
+                        for sops in ["-", "ca:ca1+opt:1"] {
+                            if !thorough && !rng.chance(1, if broken(store) { 24 } else { 4 }) {
+                                continue;
+                            }
+                            let (urihost, tr) = if servercert == "s1ip" && rng.chance(1, 2) {
+                                ("ip", *rng.pick(&["tcp-native", "tcp-native-lazy", "tcp", "duplex-native-x2"]))
+                            } else {
+                                (*rng.pick(&["good", "good", "good", "other", "bad"]), *rng.pick(&TRANSPORTS))
+                            };
+                            out.push(
+                                format!("tlsf {} {} https {} {} ; {} {} {} {}", feat, store, urihost, client, servercert, alpn, sops, tr).replace("  ", " "),
+                            );
+                        }
+                    }
+                }
+            }
+        }
+        // random builder-call sequences with the root-store methods mixed in; half of them with
+        // the caller's own CA calls removed, so that the outcome hangs on the stores
+        let nrand = if thorough { 6000 } else { 250 };
+        for _ in 0..nrand {
+            let servercert = *rng.pick(&SERVER_CERTS);
+            let aim_ok = rng.chance(1, 2);
+            let mut urihost: &'static str = *rng.pick(&["good", "good", "bad", "other", "ip"]);
+            let mut ops = random_ops(rng, servercert, aim_ok, &mut urihost);
+            if rng.chance(1, 2) {
+                ops.retain(|o| !(o.starts_with("ca:") || o.starts_with("cas:") || o.starts_with("ta:") || o.starts_with("tas:")));
+            }
+            for _ in 0..rng.range(1, 2) {
+                let extra = if feat == "nw" { *rng.pick(&["nroots", "wroots", "roots", "wroots"]) } else { *rng.pick(&["nroots", "roots"]) };
+                let pos = rng.below(ops.len() as u64 + 1) as usize;
+                ops.insert(pos, extra.to_string());
+            }
+            let store = if aim_ok && rng.chance(2, 3) { issuer_of(servercert) } else { *rng.pick(&["ca1", "ca2", "ca1+ca2", "ca1", "ca2", "ca1+ca2", "empty", "junk", "missing"]) };
+            let alpn = *rng.pick(&ALPNS);
+            if aim_ok && alpn == "none" && rng.chance(1, 2) {
+                ops.push("h2:1".into());
+            }
+            let sops = *rng.pick(&["-", "-", "ca:ca1", "ca:ca1+opt:1", "ca:ca2+opt:1"]);
+            let mut tr = rng.pick(&TRANSPORTS).to_string();
+            if urihost == "ip" && rng.chance(1, 2) {
+                tr.push_str("-native");
+            }
+            out.push(format!("tlsf {} {} https {} {} ; {} {} {} {}", feat, store, urihost, join_ops(&ops), servercert, alpn, sops, tr).replace("  ", " "));
+        }
+    }
 }
 
 pub fn generate(tier: &str, rng: &mut Rng) -> Vec<String> {
@@ -1380,6 +1842,8 @@ pub fn generate(tier: &str, rng: &mut Rng) -> Vec<String> {
         let mode = *rng.pick(&["", "-par", "-par", "-x2", "-par-x2", "-lazy-par", "-lazy"]);
         out.push(format!("tls {} ; s1good {} {} {}{}", clients.join(" | "), alpn, sops, base, mode));
     }
+
+    side_cases(thorough, rng, &mut out);
 
     // server configuration alone: random op sequences incl. malformed PEMs and a missing identity
     let nsrv = if thorough { 3000 } else { 300 };
